@@ -118,6 +118,8 @@ type Exec struct {
 	sched       int
 	internalND  int
 	closing     bool // the current branch() decides an assertion / panic check
+	known       map[int]*Term // sub-term -> constant, implied by the path condition
+	substMemo   map[int]*Term
 	pushedFrame bool // an intrinsic pushed a frame that must run before the caller continues
 	protoSizes  map[string]*Term
 	timerDurs   []*Term
@@ -247,6 +249,104 @@ func (e *Exec) assume(c *Term) {
 	}
 	e.pc = append(e.pc, c)
 	e.pcset[c.id] = true
+	e.learn(c)
+}
+
+// learn records equalities with constants implied by an assumed condition, so that later
+// terms mentioning the same sub-terms fold to constants without a solver call.
+func (e *Exec) learn(c *Term) {
+	switch c.op {
+	case OEq:
+		a, b := c.args[0], c.args[1]
+		if a.IsConst() && !b.IsConst() {
+			e.setKnown(b, a)
+		} else if b.IsConst() && !a.IsConst() {
+			e.setKnown(a, b)
+		}
+	case OAnd:
+		e.learn(c.args[0])
+		e.learn(c.args[1])
+	case ONot:
+		if x := c.args[0]; x.op == OOr {
+			e.learn(e.tt.Not(x.args[0]))
+			e.learn(e.tt.Not(x.args[1]))
+		}
+		e.setKnown(c.args[0], e.tt.Bool(false))
+		return
+	}
+	if c.w == 0 && !c.IsConst() {
+		e.setKnown(c, e.tt.Bool(true))
+	}
+}
+
+func (e *Exec) setKnown(t, k *Term) {
+	if e.known == nil {
+		e.known = map[int]*Term{}
+	}
+	if _, ok := e.known[t.id]; ok {
+		return
+	}
+	e.known[t.id] = k
+	e.substMemo = nil
+}
+
+// subst rewrites t under the learned equalities.
+func (e *Exec) subst(t *Term) *Term {
+	if len(e.known) == 0 || t.IsConst() {
+		return t
+	}
+	if e.substMemo == nil {
+		e.substMemo = map[int]*Term{}
+	}
+	return e.subst1(t)
+}
+
+func (e *Exec) subst1(t *Term) *Term {
+	if k, ok := e.known[t.id]; ok {
+		return k
+	}
+	if len(t.args) == 0 {
+		return t
+	}
+	if r, ok := e.substMemo[t.id]; ok {
+		return r
+	}
+	changed := false
+	var na [3]*Term
+	for i, a := range t.args {
+		na[i] = e.subst1(a)
+		if na[i] != a {
+			changed = true
+		}
+	}
+	r := t
+	if changed {
+		tt := e.tt
+		switch t.op {
+		case ONot:
+			r = tt.Not(na[0])
+		case OAnd:
+			r = tt.And(na[0], na[1])
+		case OOr:
+			r = tt.Or(na[0], na[1])
+		case OEq:
+			r = tt.Eq(na[0], na[1])
+		case OUlt, OUle, OSlt, OSle:
+			r = tt.Cmp(t.op, na[0], na[1])
+		case OZExt:
+			r = tt.ZExt(na[0], t.w)
+		case OSExt:
+			r = tt.SExt(na[0], t.w)
+		case OExtract:
+			r = tt.Trunc(na[0], t.w)
+		case OIte:
+			r = tt.Ite(na[0], na[1], na[2])
+		default:
+			r = tt.Bin(t.op, na[0], na[1])
+		}
+	}
+	e.substMemo[t.id] = r
+	return r
 }
 
 func (e *Exec) record(ch int) {
@@ -285,6 +385,7 @@ func (e *Exec) sat(c *Term) string {
 }
 
 func (e *Exec) branch(c *Term) bool {
+	c = e.subst(c)
 	if c.IsTrue() {
 		return true
 	}
@@ -366,6 +467,7 @@ func (e *Exec) choose(n int) int {
 // concretize forks over the feasible values of t (bounded).
 func (e *Exec) concretize(t *Term, what string) uint64 {
 	for n := 0; ; n++ {
+		t = e.subst(t)
 		if t.IsConst() {
 			return t.val
 		}
@@ -766,7 +868,7 @@ func (e *Exec) step(g *Goroutine) {
 	case *ssa.Field:
 		fr.env[in] = copyVal(e.get(fr, in.X).(*StructV).f[in.Field])
 	case *ssa.IndexAddr:
-		idx := e.toI64(e.get(fr, in.Index), in.Index.Type())
+		idx := e.subst(e.toI64(e.get(fr, in.Index), in.Index.Type()))
 		switch x := e.get(fr, in.X).(type) {
 		case SliceV:
 			ln := x.ln
@@ -774,7 +876,7 @@ func (e *Exec) step(g *Goroutine) {
 				ln = tt.Const(64, 0)
 			}
 			e.check(tt.Cmp(OUlt, idx, ln), in, "index out of range")
-			fr.env[in] = x.arr.elem(tt.Bin(OAdd, x.off, idx))
+			fr.env[in] = x.arr.elem(e.subst(tt.Bin(OAdd, x.off, idx)))
 		case Ptr: // *array
 			if x.obj == nil {
 				panic(e.panicEnd(in, "nil array pointer"))
